@@ -69,7 +69,7 @@ def cases(tier, seed):
     for d, drive, u in itertools.product(devs[:1] if quick else devs, ("both", "loop"), ("nm_uA", "um_nA", "mm_uA")):
         out.append(dict(fam="run", dev=d, drive=drive, screening=False, units=u))
     # a z-dependent source and a film away from z = 0
-    for d, drive, u in itertools.product(devs[:1] if quick else devs, ("loop", "loop_t"), ("nm", "mm")):
+    for d, drive, u in itertools.product(devs[:1] if quick else devs, ("loop", "loop_t", "loop_moved"), ("nm", "mm")):
         out.append(dict(fam="run", dev=d, drive=drive, screening=False, units=u))
     # thermalisation first (the recorded stage restarts step counter and clock on the same solver)
     for d, drive, u in itertools.product(devs[:1] if quick else devs, ("ramp_fast", "callable_current"), ("nm", "mm")):
@@ -100,14 +100,17 @@ def _problem(dev_name, drive, units, screening):
         base = {2: [0.8, -0.8], 3: [0.3, 0.5, -0.8]}[len(names)]
         kw["applied_vector_potential"] = 0.2 * sf
         kw["terminal_currents"] = _CurrentRamp(names, [b * sc for b in base])
-    if drive in ("loop", "loop_t"):
+    if drive in ("loop", "loop_t", "loop_moved"):
         # a z-dependent source (current loop above the film) and a film that does not sit at z = 0: heights are lengths too
         from tdgl.sources import CurrentLoop, LinearRamp
 
         dev = dev.copy()
         dev.layer.z0 = 0.4 * sl
         loop = CurrentLoop(current=4000.0 * sc, radius=1.5 * sl, center=(0.3 * sl, -0.2 * sl, 1.0 * sl), current_units=cu, field_units=fu, length_units=lu)
-        kw["applied_vector_potential"] = loop if drive == "loop" else LinearRamp(tmin=0.0, tmax=0.1, initial=0.5, final=1.0) * loop
+        kw["applied_vector_potential"] = loop if drive != "loop_t" else LinearRamp(tmin=0.0, tmax=0.1, initial=0.5, final=1.0) * loop
+        if drive == "loop_moved":
+            # the meshed device is moved in place (a displacement is a length too) under a source that stays where it is
+            dev.translate(dx=1.2 * sl, dy=-0.7 * sl, inplace=True)
     if drive in ("field", "both"):
         kw["applied_vector_potential"] = 0.4 * sf
     if drive in ("current", "both"):
